@@ -22,6 +22,8 @@ using y2::detail::method_info;
 // can only be included in one translation unit)
 template<class P>
 std::string glue_write_static_offsets();
+template<class P>
+std::string glue_write_static_offsets_after_encode(const generic_compiler& c, const std::string& policy);
 std::string glue_encode(const generic_compiler& c, const std::string& policy);
 template<class P>
 std::string glue_fwd_policy(bool via_wrapper);
@@ -1467,6 +1469,9 @@ struct World : IWorld {
 
     std::string write_static_offsets() override {
         return glue_write_static_offsets<P>();
+    }
+    std::string write_static_offsets_after_encode(const generic_compiler& c) override {
+        return glue_write_static_offsets_after_encode<P>(c, name_);
     }
     std::string encode(const generic_compiler& c) override {
         return glue_encode(c, name_);
